@@ -95,6 +95,15 @@ def cases(rng, tier):
     for m in MODES:
         for ln in (range(1, 301) if tier == "thorough" or m in ("raw", "stored") else range(1, 301, 4)):
             out.append(read_case(n, {"kind": "std", "blocks": [[[1 + ln % 250, ln]], [[3, 5]]], "_modes": [m, "raw"]})); n += 1
+    # (2b) block-count sweep: 1..48 small blocks, so that the entry header (24 bytes + 8 per block) ends before, on and after
+    # every 128-byte boundary (13, 29, 45 blocks end exactly on one); the same for texture headers (20 per mip + 2 per block)
+    for nb in range(1, 49):
+        out.append(read_case(n, std(rng, [16 + nb % 5] * nb, [MODES[(nb + k) % len(MODES)] for k in range(nb)]), pre=nb % 2)); n += 1
+    for nm in range(1, 7):
+        for extra in range(0, 14, 2 if tier == "quick" else 1):
+            mips = [[32] * (1 + (extra if i == 0 else 0)) for i in range(nm)]
+            nbk = sum(len(m) for m in mips)
+            out.append(read_case(n, tex(rng, 80, mips, ["raw"] * nbk))); n += 1
     # (3) textures: 1..13 mips, 1..3 blocks per mip
     for _ in range(60 if tier == "quick" else 500):
         nm = rng.choice([1, 2, 3, 13]) if rng.random() < 0.4 else rng.randint(1, 13)
@@ -136,7 +145,7 @@ def check(run):
     cs = cases(rng, run.tier)
     run.rule = ("standard entries with every (length class in {1,127,128,129,15999,16000} x raw/stored/fixed/dynamic) single block, "
                 "block pairs (thorough: all 576), sampled triples, a block sweep over every payload length 1..300; textures with "
-                "1..13 mips; models with 0..2 blocks per section (thorough: all 6561 count vectors); entries first or after another "
+                "1..13 mips; entries of 1..48 blocks and textures of 1..6 mips x 1..14 blocks (header ends before / on / after each 128-byte boundary); models with 0..2 blocks per section (thorough: all 6561 count vectors); entries first or after another "
                 "entry, read through SqPackData::read_from_offset and through GameData::extract at dat 0/1/7 with up to 70 blocks "
                 "of up to 16000 bytes; distinct by descriptor, all non-trivial")
     run.conform(cs, MODULE, CFG, shards=14, xmx="5g")
